@@ -2,5 +2,6 @@
 
 
 def generate():
-    from . import extract_log
+    from . import extract_log, extract_statics
     extract_log.generate()
+    extract_statics.generate()
